@@ -1386,6 +1386,12 @@ class IntExec(Exec):
         if op == "freeze":
             env[ins.dest] = self.operand(ins.args[0], env)
             return
+        if op == "extractvalue":
+            a = self.operand(ins.args[0], env)
+            for i in ins.extra:
+                a = a[i]
+            env[ins.dest] = a
+            return
         if op in ("fadd", "fsub", "fmul", "fdiv", "fneg", "fcmp", "sitofp", "uitofp", "fptosi", "fpext"):
             if o.fp_mode != "real":
                 raise Unsupported("floating point in INT mode needs fp_mode='real'")
@@ -1409,6 +1415,30 @@ class IntExec(Exec):
                 return
             if name.startswith("llvm.fmuladd") or name.startswith("llvm.fabs"):
                 Exec.call(self, ins, env)
+                return
+            parts = name.split(".")
+            if len(parts) >= 4 and parts[1] in ("sadd", "ssub", "smul", "uadd", "usub", "umul") and parts[2] == "with":
+                a = self.operand(ins.args[0], env)
+                b = self.operand(ins.args[1], env)
+                w = a.w
+                k = parts[1]
+                if k[0] == "s":
+                    x, y = a.t, b.t
+                else:
+                    x, y = a.t % (1 << w), b.t % (1 << w)
+                if k.endswith("add"):
+                    r = x + y
+                elif k.endswith("sub"):
+                    r = x - y
+                elif o.mul_uf and self.const(a) is None and self.const(b) is None:
+                    r = MULI(x, y)
+                else:
+                    r = x * y
+                if k[0] == "s":
+                    ov = z3.Not(self.rng(r, w))
+                else:
+                    ov = z3.Or(r < 0, r >= (1 << w))
+                env[ins.dest] = (IV(iwrap(r, w), w), IV(z3.If(simp(ov), z3.IntVal(1), z3.IntVal(0)), 1))
                 return
             if name.startswith("llvm.ctlz"):
                 # count of leading zeros defined by its specification: 2^(w-1-c) <= x_unsigned < 2^(w-c), c = w for x = 0
